@@ -1,6 +1,8 @@
 import Driver.Proto
 import PqModel.Seek
 import PqModel.SliceRepeated
+import PqModel.SeekLayers
+import PqModel.ReaderSeek
 
 namespace Driver.Ops.C08
 open Driver PqModel.Seek
@@ -42,7 +44,7 @@ def runWith (step : Chunk → St → Op → St × Out) (rows dict idx bad ops : 
 /-- `seek.run <page row counts> <dict 0/1> <with-index 0/1> <corrupted pages> <ops>`; ops: `s<k>`
     SeekToRow(k), `r` ReadPage, `i` load the offset index lazily; answer: one token per op (see
     `showStep`). -/
-def handle (toks : List String) : Option String :=
+def handleBase (toks : List String) : Option String :=
   match toks with
   | ["seek.run", rows, dict, idx, bad, ops] => some (runWith mirror rows dict idx bad ops)
   | ["seek.run.asis", rows, dict, idx, bad, ops] => some (runWith stepAsis rows dict idx bad ops)
@@ -57,5 +59,59 @@ def handle (toks : List String) : Option String :=
       s!"ok {ab.1} {ab.2} {r.2.1} {r.2.2}"
     | _, _, _, _, _ => "bad-op"
   | _ => none
+
+/-! ### the layers above FilePages: `range.run`, `multi.run`, `rows.run` -/
+open PqModel.SeekLayers PqModel.ReaderSeek
+
+def showROut : ROut → String
+  | .ok => "ok"
+  | .err => "err"
+  | .eof => "eof"
+  | .rows st len => s!"p{st}:{len}"
+  | .fail => "fail"
+
+/-- `FilePages` machine of a chunk given by its page row counts; `none` if a page is empty -/
+def chunkMachine? (rows : List Nat) (dict idx : Bool) : Option Machine.{0} :=
+  if h : ∀ r ∈ rows, 0 < r then some (filePages { rows := rows, dict := dict } h idx) else none
+
+/-- chunks separated by `|`, page row counts by `,` -/
+def parseChunks? (s : String) (idx : Bool) : Option (List Machine.{0}) :=
+  (s.splitOn "|").mapM fun c => (parseList? parseNat? c).bind fun rows => chunkMachine? rows false idx
+
+/-- a column over one chunk is a `FilePages`, over several a `multiPages` -/
+def columnMachine (ms : List Machine.{0}) : Machine.{1} := multiM ms
+
+def parseROp? (s : String) : Option ROp :=
+  match s.toList with
+  | ['z'] => some .reset
+  | 's' :: ds => (String.ofList ds).toNat?.map .seek
+  | 'r' :: ds => (String.ofList ds).toNat?.map .read
+  | _ => none
+
+def handleLayers (toks : List String) : Option String :=
+  match toks with
+  -- `multi.run <chunk|chunk|...> <with-index 0/1> <ops>`: multiPages over the chunks of one column
+  | ["multi.run", chunks, idx, ops] => some <|
+    match parseChunks? chunks (idx == "1"), parseList? parseOp? ops with
+    | some ms, some os => "ok " ++ " ".intercalate (((multiM ms).outs (multiM ms).init os).map showROut)
+    | _, _ => "bad-op"
+  -- `range.run <page row counts> <with-index 0/1> <off> <len> <ops>`: a row-range view of one chunk
+  | ["range.run", rows, idx, off, len, ops] => some <|
+    match (parseList? parseNat? rows).bind (fun r => chunkMachine? r false (idx == "1")), parseNat? off, parseNat? len,
+          parseList? parseOp? ops with
+    | some b, some off, some len, some os =>
+      if h : off + len ≤ b.total then
+        "ok " ++ " ".intercalate (((rangeM b off len h).outs (rangeM b off len h).init os).map showROut)
+      else "bad-op"
+    | _, _, _, _ => "bad-op"
+  -- `rows.run <column;column;...> <with-index 0/1> <ops>`: the row reader, a column = its chunks
+  | ["rows.run", cols, idx, ops] => some <|
+    match (cols.splitOn ";").mapM (fun c => parseChunks? c (idx == "1")), parseList? parseROp? ops with
+    | some css, some os => "ok " ++ " ".intercalate ((routs (rinit (css.map columnMachine)) os).map showROut)
+    | _, _ => "bad-op"
+  | _ => none
+
+def handle (toks : List String) : Option String :=
+  (handleBase toks).orElse fun _ => handleLayers toks
 
 end Driver.Ops.C08
